@@ -75,6 +75,7 @@ Print Assumptions C11_no_pending_returned.
     leaves the state unchanged *)
 Theorem C11_recursion :
   forall V (O : vops V) alg prog (W : xworld V) rec tb k ix (s : state V),
+    wf_index W ix = true ->
     st_lookup s (tb, k, ix) = Some Pending ->
     getitem_step O alg prog W rec tb k ix s = (Raise RuntimeError, s).
 Proof. exact recursion_detected. Qed.
